@@ -50,7 +50,16 @@ func genCase(r *vh.Rand, thorough bool) string {
 		closeAt = r.Intn(nops)
 		closeOps = append(closeOps, "XR")
 		for k := uint64(0); k < ps; k++ {
-			closeOps = append(closeOps, fmt.Sprintf("XP %d", k))
+			if r.Chance(1, 3) {
+				// the shard is closed while a propose to it is under way
+				key := 900000 + k
+				for key%ps != k {
+					key++
+				}
+				closeOps = append(closeOps, fmt.Sprintf("XQ %d %d %d %d %d", 1+r.Intn(3), 1+r.Intn(2), key, []uint64{1, 3, 100}[r.Intn(3)], r.Intn(4)))
+			} else {
+				closeOps = append(closeOps, fmt.Sprintf("XP %d", k))
+			}
 		}
 		closeOps = append(closeOps, "XC", "XS", "XL")
 	}
